@@ -1,5 +1,5 @@
 """C17 — bitwise operations are two's-complement exact on all exact integers.
-   (T) coq/Properties_C17.v
+   (T) coq/Properties_C17.v   (G) gen/c17_leaf.py: log_table_256 + SWAR constants + leaf function texts from bit.c
    (K-inner) harness/embed_c17.c (dlopens lib/srfi/151/bit.so, calls the seven C entry points on fixnums and
              hand-built bignum word arrays) vs the extracted model (coq/C17/Model.v), word for word
    (K-outer) every export of (srfi 151) through the Scheme API vs the extracted Z spec (coq/C17/Spec.v)."""
@@ -134,6 +134,8 @@ def run(ctx):
         "bit.so vs the extracted model compared word for word (sign, every data word, fixnum/bignum class, operands unchanged); "
         "outer: every (srfi 151) export over the same lattice x shift counts x field bounds through the Scheme API vs the extracted Z "
         "spec, results must also be canonical (fixnum iff it fits); distinct = distinct request; non-trivial = some operand is a bignum")
+    from gen import c17_leaf
+    c17_leaf.regen(ctx)          # (G) coq/Gen/C17_Leaf.v from lib/srfi/151/bit.c
     ctx.coq_obligations("Properties_C17")
     d = ctx.build("default")
     exe = ctx.extract("C17")
@@ -383,3 +385,28 @@ def agree(spec, impl):
     if (p[0] == "f") != (-(1 << 62) <= x <= FIXMAX):
         return False, "not canonical (fixnum iff it fits)"
     return True, ""
+
+
+def replay(ctx, j):
+    """./check C17 --replay evidence/replay/C17-n.json : re-run the recorded failing cases on the current tree.
+    Returns 1 (and prints VIOLATION) if any still fails, 0 if all pass now."""
+    d = ctx.build("default")
+    exe = ctx.extract("C17")
+    emb = B.cc_embed(d, os.path.join(HERE, "..", "harness", "embed_c17.c"), os.path.join(d, "embed_c17"))
+    so = os.path.join(d, "lib", "srfi", "151", "bit.so")
+    bad = 0
+    for c in j.get("failing_cases", []):
+        q = c.get("input", "")
+        if c.get("sig", "").startswith("bit.c:") and q.split() and q.split()[0] in ("and", "ior", "xor", "shift", "count", "length", "bitset"):
+            m = ctx.run_model(exe, [q])[0]
+            i = subprocess.run([emb, so], input=q + "\n", capture_output=True, text=True, env=B.chibi_env(d), timeout=60).stdout.split("\n")[0]
+            ok = (m == i)
+            print("%s  request=%s model=%s impl=%s" % ("ok  " if ok else "FAIL", q, m, i))
+        else:
+            i = scm.run_cases(d, [q], imports="(import (srfi 151))")[0]
+            ok, why = agree(c.get("expected", ""), i)
+            print("%s  %s expected=%s impl=%s" % ("ok  " if ok else "FAIL", q[:200], c.get("expected"), i))
+        bad += 0 if ok else 1
+    if bad:
+        print("VIOLATION property=C17 replay=%s still-failing=%d" % (j.get("signature"), bad))
+    return 1 if bad else 0
